@@ -148,3 +148,12 @@ func vFormCount(out []byte, tag string) int
 func vPostedDocumentSigned(b64doc string) bool
 
 func vContains(s, sub string) bool
+
+func vTraceStart(sp *SAMLServiceProvider)
+func vTraceCut(published *dsig.SigningContext)
+func vTraceEnd()
+func vRaceFree(threads int, body func()) bool
+func vhC17SPNative() *SAMLServiceProvider
+func vGlobalWritesReset()
+func vGlobalWrites() int
+func vConfigSig(sp *SAMLServiceProvider) string
